@@ -396,10 +396,17 @@ func relKey(s *CState) string {
 
 // newCacheSeqSpec builds the E2 job for one constructor configuration and alphabet.
 func newCacheSeqSpec(name string, cfg CacheCfg, defAtStart time.Duration, cbAtStart bool, events []CIn, maxDepth int, mode string) *SeqSpec {
-	names := make([]string, len(events))
-	for i, e := range events {
+	return newCacheSeqSpecFrom(name, cfg, defAtStart, cbAtStart, nil, events, maxDepth, mode)
+}
+
+// newCacheSeqSpecFrom: the search starts from the state a fixed prologue of calls leaves behind
+// (a non-initial state); the prologue's own results are not judged here.
+func newCacheSeqSpecFrom(name string, cfg CacheCfg, defAtStart time.Duration, cbAtStart bool, prologue, alphabet []CIn, maxDepth int, mode string) *SeqSpec {
+	names := make([]string, len(alphabet))
+	for i, e := range alphabet {
 		names[i] = e.String()
 	}
+	events := append(append([]CIn{}, alphabet...), prologue...)
 	return &SeqSpec{Name: name, Events: names, MaxDepth: maxDepth, New: func() SeqInst {
 		vtime.VEnable(epochNs)
 		vtime.VCaptureTickers(true) // a janitor started by the constructor variant under test never fires here
@@ -422,7 +429,11 @@ func newCacheSeqSpec(name string, cfg CacheCfg, defAtStart time.Duration, cbAtSt
 		if cbAtStart {
 			m.CB = 1
 		}
-		return &cacheSeqInst{c: c, m: m, l: l, events: events, keyFn: relKey, mode: mode}
+		ci := &cacheSeqInst{c: c, m: m, l: l, events: events, keyFn: relKey, mode: mode}
+		for i := range prologue {
+			ci.Apply(len(alphabet)+i, false)
+		}
+		return ci
 	}}
 }
 
